@@ -29,8 +29,14 @@ pub fn run_tree(o: &Opts) {
 /// `vary_root`: the root script is dispatched through wasm_sudo or migrate (to the same code) instead of execute
 /// — each has its own call site of the response processing in WasmKeeper
 pub fn run_tree_from(o: &Opts, vary_root: bool) {
+    run_tree_with(o, vary_root, false)
+}
+
+/// `adapted`: contracts registered through the wrapper's Empty adapters (seed C02j: the conversion
+/// layer between the contract's response and the chain must not alter reply_on)
+pub fn run_tree_with(o: &Opts, vary_root: bool, adapted: bool) {
     let root_entry = if vary_root { 1 + choose(3) } else { 0 };
-    let mut w = world(o.max_depth + 1);
+    let mut w = world_of(o.max_depth + 1, adapted);
     let root = gen_tree(o);
     let mut uids = BTreeMap::new();
     let mut next = 0;
@@ -302,6 +308,9 @@ fn failing_native_module_submessage_caught() {
 pub fn scenarios(tier: &str) -> Vec<Scenario> {
     let mut v = vec![];
     v.push(Scenario::new("same_key_rewritten_inside_one_transaction", &["rewrite_ok"], rewrite_same_key));
+    v.push(Scenario::new("trees_depth2_nodes3_contracts_registered_through_empty_adapters", &["tree_ok", "tree_err", "some_failure_caught"], || {
+        run_tree_with(&Opts::plain(2, 3, 1), false, true)
+    }));
     v.push(Scenario::new("failing_native_module_submessage_caught_by_reply", &["native_ok", "native_failure_caught"], failing_native_module_submessage_caught));
     v.push(Scenario::new("dispatcher_without_reply_entry_point", &["no_reply_due_ok", "unhandled_reply_or_failure_propagates"], dispatcher_without_reply_entry_point));
     v.push(Scenario::new("trees_depth2_nodes3", &["tree_ok", "tree_err", "some_failure_caught"], || {
